@@ -11,4 +11,35 @@ Theorem C08_decode_spec x t :
   decode x = Ok t <-> exists v, canonical v /\ x = enc v /\ t = annot 0 v.
 Proof. exact (decode_spec x t). Qed.
 
+(** Every node's recorded start and continuation offsets delimit exactly the bytes of that node
+    (dictionary keys included). *)
+Theorem C08_spans_exact x t n :
+  decode x = Ok t -> In n (subtoks t) -> slice x (tok_start n) (tok_end n) = enc (erase n).
+Proof. exact (spans_exact x t n). Qed.
+
+(** Re-encoding the returned tree reproduces the input byte for byte. *)
+Theorem C08_reencode x t : decode x = Ok t -> enc (erase t) = x.
+Proof. exact (reencode x t). Qed.
+
+(** "Exactly one": two canonical values with the same encoding are equal. *)
+Theorem C08_unique_value v w : canonical v -> canonical w -> enc v = enc w -> v = w.
+Proof. exact (canonical_enc_inj v w). Qed.
+
+(** The decoder never runs out of its fuel (|x| + 1): it is a total function of the input. *)
+Theorem C08_decode_total x : decode x <> OutOfFuel.
+Proof. exact (decode_total x). Qed.
+
+(** Non-vacuity: a dictionary with a nested list, a negative integer and an empty string. *)
+Example C08_example :
+  let v := BDict [([99;111;119], BList [BInt (-3); BStr []]); ([115;112;97;109], BStr [101;103;103;115])] in
+  canonical v /\ decode (enc v) = Ok (annot 0 v).
+Proof.
+  cbv zeta. split; [|vm_compute; reflexivity].
+  cbn; repeat split; try exact I; try reflexivity; vm_compute; discriminate.
+Qed.
+
 Print Assumptions C08_decode_spec.
+Print Assumptions C08_spans_exact.
+Print Assumptions C08_reencode.
+Print Assumptions C08_unique_value.
+Print Assumptions C08_decode_total.
